@@ -5,6 +5,7 @@ Import ListNotations.
 Require Import LV.Files.NumFmtModel LV.Files.NumFmtProofs LV.Files.NpdScan LV.Files.NpdScanProofs
                LV.Files.SaveModel LV.Files.SaveProofs.
 Require LV.Files.TsTok LV.Files.TsParse LV.Files.TsSpec LV.Files.SaveEmit LV.Files.SaveEmitProofs LV.Files.SaveEmitExamples.
+Require LV.Files.SaveTsLemmas LV.Files.NpdLoad LV.Files.SaveNpdProofs.
 Open Scope Z_scope.
 
 (* eng_value: for every sign, digit string (precision p = its length >= 1), exponent, plus and pad flag,
@@ -134,9 +135,96 @@ Section SaveLoadTouchstone2.
           (map (fun z => v_val E (fst z)) (firstn (m_rows o) (m_z0 o)))
           (map (map (exact_cell D E)) (convert_obj E o (e_par e))).
   Proof. exact (ts2_loaded_exact D E rd rda num_rt). Qed.
+
+  (* save_denotes_touchstone2: under the same premises the stream written is, up to the line breaks inside a record
+     (newline tokens, which the version-2 grammar does not give meaning to), the stream TsSpec.v2_stream - C08's independent
+     description of a version-2 file - of the abstract file [v2_of o e]: option line Hz / type / format / R z0[0], ports,
+     [Two-Port Order] 12_21 iff two ports, frequency count, [Reference] iff the z0 differ, per frequency the frequency and
+     the row-major cells in the entry's form; and that abstract file is well formed. *)
+  Theorem save_denotes_touchstone2 : forall o ft0 promote fmt,
+    conv_keeps_length D E -> mobj_wf D o -> wf_obj (sobj_of E o ft0 promote fmt) = true ->
+    cksave (sobj_of E o ft0 promote fmt) = true -> final_filetype (sobj_of E o ft0 promote fmt) = TS2 ->
+    freqs_readable D rd o ->
+    exists st e, resolved (sobj_of E o ft0 promote fmt) = [e] /\ save_emit E o ft0 promote fmt = STouchstone st /\
+                 LV.Files.SaveTsLemmas.strip st = LV.Files.SaveTsLemmas.strip (v2_stream (v2_of D E rd rda o e)) /\
+                 v2_wf (v2_of D E rd rda o e).
+  Proof. exact (ts2_save_denotes_lemma D E rd rda ptext_word atext_word itext_int rd_sign). Qed.
+
+  (* load_save_id_touchstone1 (+ save_denotes): for EVERY object cksave accepts whose final file type is Touchstone 1
+     (1..4 ports follow from the checks; any number of frequencies; S/Z/Y/H/G; RI/MA/DB; any precisions; z0 = 1 or
+     not, i.e. printed from the object itself or from its normalised copy [print_obj]): the stream written IS
+     TsSpec.v1_stream of the abstract version-1 file [v1_of] (2-port matrices column-major on one line, otherwise one
+     row per line), that file is well formed, and the loader model returns [ts1_loaded]: version 1, type, format, ports,
+     every frequency, R for every port, and per frequency the cells as written read back and un-normalised by R as the
+     loader does (TsParse.unnormalise: identity for S). *)
+  Theorem load_save_id_touchstone1 : forall o ft0 promote fmt,
+    conv_keeps_length D E -> mobj_wf D o -> wf_obj (sobj_of E o ft0 promote fmt) = true ->
+    cksave (sobj_of E o ft0 promote fmt) = true -> final_filetype (sobj_of E o ft0 promote fmt) = TS1 ->
+    freqs_readable D rd o ->
+    exists st e, resolved (sobj_of E o ft0 promote fmt) = [e] /\ save_emit E o ft0 promote fmt = STouchstone st /\
+                 st = v1_stream (v1_of D E rd rda o (print_obj E TS1 o) e) /\ v1_wf (v1_of D E rd rda o (print_obj E TS1 o) e) /\
+                 parse st = Ok (ts1_loaded D E rd rda o (print_obj E TS1 o) e).
+  Proof. exact (ts1_load_save_lemma D E rd rda ptext_word atext_word rd_sign). Qed.
+
+  (* load_save_id_touchstone1_exact_S: S parameters (no un-normalisation) at maximum precision in RI form: the loaded
+     object has exactly the saved frequencies and cells (whatever z0 is: the S values are written unchanged) and R = re z0[0]
+     for every port.  Z/Y/H/G: the cells are those of the normalised conversion multiplied / divided by R as read
+     (ts1_loaded); that this equals the saved matrix is the conversion algebra of vnaconv (C04), not proved here. *)
+  Theorem load_save_id_touchstone1_exact_S : forall o e,
+    exact_prec (m_fprec (print_obj E TS1 o)) = true -> exact_prec (m_dprec (print_obj E TS1 o)) = true ->
+    m_type o = NpdScan.PS -> e_par e = NpdScan.PS -> e_form e = RI ->
+    ts1_loaded D E rd rda o (print_obj E TS1 o) e =
+    mkobj false LV.Files.TsParse.PS FRI (m_ports o) (map (v_val E) (m_freqs o)) (repeat (v_val E (ts1_z0t D E o)) (m_ports o))
+          (map (map (exact_cell D E)) (m_data o)).
+  Proof. exact (ts1_loaded_exact_S D E rd rda num_rt). Qed.
 End SaveLoadTouchstone2.
 Print Assumptions load_save_id_touchstone2.
 Print Assumptions load_save_id_touchstone2_exact.
+Print Assumptions save_denotes_touchstone2.
+Print Assumptions load_save_id_touchstone1.
+Print Assumptions load_save_id_touchstone1_exact_S.
+
+(* ------------------------------------------------------------------------------------------------
+   load_save_id on the models, NPD: NpdLoad.v (the NPD loader model of C08/C09) run over the lines SaveEmit writes.
+   Number-text layer (Section hypotheses): ptext_field / atext_field (strtod of the written field is rd / rda),
+   ptext_cstr (no NUL byte in a printed number), ptext_nohash (it does not begin with '#'), itext_field (%d / strtol).
+   ------------------------------------------------------------------------------------------------ *)
+Section SaveLoadNpd.
+  Import LV.Files.TsTok LV.Files.NpdLoad LV.Files.SaveEmit LV.Files.SaveNpdProofs.
+  Variable D : Type.
+  Variable E : env D.
+  Variable rd : Z -> D -> xnum.
+  Variable rda : Z -> bool -> D -> xnum.
+  Hypothesis ptext_field : forall p s x, field_double (v_ptext E p s x) = Some (rd p x).
+  Hypothesis atext_field : forall ap z x, field_double (v_atext E ap z x) = Some (rda ap z x).
+  Hypothesis ptext_cstr : forall p s x, cstr (v_ptext E p s x) = v_ptext E p s x.
+  Hypothesis ptext_nohash : forall p s x, hd 0%N (v_ptext E p s x) <> 35%N.
+  Hypothesis itext_field : forall z : Z, (0 <= z <= 2147483647)%Z -> field_int (v_itext E z) = Some z.
+
+  (* load_save_id_npd: for EVERY object (npd_wf: >= 1 port, <= 46340, precisions 0..1000, z0 vector sized unless
+     per-frequency; at least one frequency) and EVERY non-empty format list l of resolved pair-form entries (matrix RI / MA /
+     DB, Zin RI / MA / PRC / PRL / SRC / SRL - all RI-form lists included; entry_good: two-port types only on two ports, square
+     data for matrix entries, the entry's matrix sized: what cksave and the vnadata_t invariants give), z0 vector or
+     per-frequency z0 vectors, any number of ports / frequencies / entries, the line's field count fitting int:
+     the loader model accepts the lines the saver model writes (header lines #:version .. #:dprecision, then one line per
+     frequency) and returns [npd_loaded o e] where e is the entry the loader's own selection (sel = the choice made by
+     account) picks at field offset pbase + sum of the fields of the entries before it: type and form of e, rows / columns,
+     every frequency, the z0 vector (or every per-frequency vector), both precisions, and per frequency every cell of e's
+     matrix as the two written texts read back (entry_vals).  NOT covered: lists holding IL / RL / VSWR columns. *)
+  Theorem load_save_id_npd : forall o l, npd_wf D o -> l <> [] -> Forall (entry_good D E o) l -> fz0_sized D o -> m_freqs o <> [] ->
+    (pbase D o + sum_fields (Z.of_nat (m_ports o)) l <= 2147483647)%Z ->
+    exists l1 e l2, l = l1 ++ e :: l2 /\
+      fst (sel (Z.of_nat (m_ports o)) l (pbase D o) None 0%nat) = Some (e, (pbase D o + sum_fields (Z.of_nat (m_ports o)) l1)%Z) /\
+      nfinish (fold_left nstep (npd_header E o l ++ map_i (npd_line E o l) 0%nat (m_freqs o)) (NHeader nh0)) = NOk (npd_loaded D E rd rda o e).
+  Proof. exact (npd_load_save_lemma D E rd rda ptext_field atext_field ptext_cstr ptext_nohash itext_field). Qed.
+
+  (* at maximum precision in rectangular form every loaded cell is the saved value *)
+  Theorem load_save_id_npd_exact_cell : forall (val : D -> xnum) o e fq v, (forall x, rd (m_dprec o) x = val x) -> e_form e = RI ->
+    entry_vals D E rd rda o e fq v = (val (fst v), val (snd v)).
+  Proof. exact (entry_vals_exact D E rd rda). Qed.
+End SaveLoadNpd.
+Print Assumptions load_save_id_npd.
+Print Assumptions load_save_id_npd_exact_cell.
 
 (* load_save_id_touchstone1_lines_partial: for 1..4 ports and RI / MA / DB the tokens the saver writes for one
    frequency of a Touchstone 1 file (frequency, cells in the 2-port column-major order or row by row, one row per
